@@ -4,3 +4,5 @@
 package reactive
 
 func verifYield(site string) {}
+
+func verifReleased(n *node) {}
